@@ -2,7 +2,7 @@ SPECIFICATION Spec
 CONSTANTS
   MaxLen = 7
   ValSet = {0, 1, 2}
-  Kinds = {"uniq", "cut"}
+  Kinds = {"uniq", "cut", "cutseq"}
   CutLen = 6
   Elem <- ElemDef
 INVARIANTS Laws EmitMap
